@@ -359,6 +359,8 @@ func (r *SuRecord) isReadOnly() bool {
 }
 
 func (r *SuRecord) IsNew() bool {
+	r.Lock()
+	defer r.Unlock()
 	return r.status == NEW
 }
 
@@ -977,6 +979,8 @@ func UnpackRecord(s string) *SuRecord {
 // database
 
 func (r *SuRecord) Table() string {
+	r.Lock()
+	defer r.Unlock()
 	return r.table
 }
 
@@ -990,15 +994,22 @@ func (r *SuRecord) DbDelete(th *Thread) {
 
 func (r *SuRecord) DbUpdate(th *Thread, ob Value) {
 	var rec Record
+	hdr := r.header()
 	if ob == False {
-		rec = r.ToRecord(th, r.hdr)
+		rec = r.ToRecord(th, hdr)
 	} else {
-		rec = ToContainer(ob).ToRecord(th, r.hdr)
+		rec = ToContainer(ob).ToRecord(th, hdr)
 	}
 	r.Lock()
 	defer r.Unlock()
 	r.ckModify("Update")
 	r.recoff = r.tran.Update(th, r.table, r.recoff, rec) // ??? ok while locked ???
+}
+
+func (r *SuRecord) header() *Header {
+	r.Lock()
+	defer r.Unlock()
+	return r.hdr
 }
 
 func (r *SuRecord) ckModify(op string) {
